@@ -407,6 +407,13 @@ def SplineModel.generateCpNumbers (sm : SplineModel) : Except NErr Numbered := d
   let (cp, ncps) ← numberPlans plans
   pure { sm := sm, tops := tops, views := views, cp := cp, ncps := ncps }
 
+/-- **decidable link between the catalogue and the history**: the plans read off the catalogue
+    (`planOf`, what `generate_cp_numbers` of the driver runs on) are the plans of the history
+    (`plansOfObjs`, what the numbering theorems are about).  Evaluated by the harness on every
+    generated model. -/
+def plansAgreeB (cat spec : List PatchPlan) : Bool :=
+  spec.length == cat.length && (List.zip spec cat).all fun ab => ab.1.same ab.2
+
 /-- the plans the catalogue yields (for the cross-check against `plansOfObjs`). -/
 def SplineModel.plans (sm : SplineModel) : List PatchPlan :=
   let views := allViews sm
@@ -515,44 +522,137 @@ def sideFaces (cs : List ℕ) (cp cell : NdArr ℤ) (d : ℕ) (last : Bool) (nam
     let q := if last then q else [q.getD 0 0, q.getD 3 0, q.getD 2 0, q.getD 1 0]
     { nodes := q, owner := cell.get cidx, neighbor := -1, name := name }
 
-/-- `TopologicalNode.faces()` of the top node at position `k`. -/
-def Numbered.facesOf (ktol : ℚ) (r : Numbered) (k : ℕ) : Except NErr (List Face) := do
+/-- what `faces()` says about a listed face -/
+inductive FaceKind where
+  /-- between two cells of the patch -/
+  | internal
+  /-- on a face node with one patch (`nhigher == 1`) -/
+  | boundary
+  /-- on an interface owned by the patch; `nbPos` = position of the neighbouring top node -/
+  | iface (nbPos : ℕ)
+  deriving DecidableEq, Repr, Inhabited
+
+/-- the neighbour of an interface: its position and its cell numbers on the interface, mapped to
+    the frame of the interface node (`ori.map_array(cellidxs).flatten()`) -/
+structure IfaceInfo where
+  nbPos : ℕ
+  mapped : List ℤ
+
+/-- the `else` branch of the boundary loop of `faces()`: the neighbour `next(c for c in
+    bdnode.higher_nodes[3] if c is not self)`, its section, `Orientation.compute(bdnode.obj, nb_obj)`,
+    the mapped cell numbers. -/
+def Numbered.ifaceOf (r : Numbered) (t bd : ℕ) (hs : List ℕ) : Except NErr IfaceInfo :=
+  match hs.find? (· != t) with
+  | none => .error .stopIteration
+  | some nbId =>
+    let nb := r.sm.cat.node nbId
+    let nbIndex := (nb.lower.getD 2 []).idxOf bd
+    match sectionFromIndex 3 2 nbIndex with
+    | none => .error .index
+    | some nbSec =>
+      match Orientation.compute (r.sm.cat.node bd).obj (nb.obj.sect nbSec) with
+      | .error e => .error (.m e)
+      | .ok ori =>
+        let nbPos := r.tops.idxOf nbId
+        .ok ⟨nbPos, (ori.mapArray ((r.cells.getD nbPos default).sect nbSec)).data.toList⟩
+
+/-- the faces the top node at position `k` lists for the side `bdindex` (`last`) of direction `d`,
+    each with its kind (nothing when the side is not owned by the node). -/
+def Numbered.sideOf (ktol : ℚ) (r : Numbered) (k d : ℕ) (last : Bool) : Except NErr (List (Face × FaceKind)) :=
+  let t := r.tops.getD k 0
+  let n := r.sm.cat.node t
+  let cs := cellShape ktol n.obj
+  let cp := r.cp.getD k default
+  let cell := r.cells.getD k default
+  match (n.lower.getLastD [])[if last then 2 * d + 1 else 2 * d]? with
+  | none => .ok []      -- `islice` of an exhausted iterator
+  | some bd =>
+    let bn := r.sm.cat.node bd
+    match bn.higherAt 3 with
+    | none => .error (.m .key)      -- `nhigher`
+    | some hs =>
+      if hs.length ≠ 1 ∧ hs.length ≠ 2 then .error .assertion
+      else if bn.owner != some t then .ok []
+      else
+        let fs := sideFaces cs cp cell d last (r.nameOf bd)
+        if hs.length = 1 then .ok (fs.map fun f => (f, FaceKind.boundary))
+        else
+          match r.ifaceOf t bd hs with
+          | .error e => .error e
+          | .ok i =>
+            if i.mapped.length ≠ fs.length then .error .value
+            else .ok ((List.zip fs i.mapped).map fun (fm : Face × ℤ) =>
+              ({ fm.1 with neighbor := fm.2 }, FaceKind.iface i.nbPos))
+
+/-- the faces of direction `d`: internal ones, then the two sides -/
+def Numbered.pieceOf (ktol : ℚ) (r : Numbered) (k d : ℕ) : Except NErr (List (Face × FaceKind)) :=
+  let t := r.tops.getD k 0
+  let n := r.sm.cat.node t
+  let cs := cellShape ktol n.obj
+  match r.sideOf ktol k d false with
+  | .error e => .error e
+  | .ok s0 =>
+    match r.sideOf ktol k d true with
+    | .error e => .error e
+    | .ok s1 =>
+      .ok ((internalFaces cs (r.cp.getD k default) (r.cells.getD k default) d).map (fun f => (f, FaceKind.internal))
+        ++ s0 ++ s1)
+
+/-- `TopologicalNode.faces()` of the top node at position `k` WITHOUT the final `assert`, every
+    face with its kind. -/
+def Numbered.facesTagged (ktol : ℚ) (r : Numbered) (k : ℕ) : Except NErr (List (Face × FaceKind)) :=
   let t := r.tops.getD k 0
   let n := r.sm.cat.node t
   if n.pardim ≠ 3 then .error .assertion
   else if n.obj.bases.map (·.order) ≠ [2, 2, 2] then .error .assertion
+  -- the slices `[:-1]`, `[1:]` of the number array must have the extent of the cell array
+  else if (r.cp.getD k default).shape ≠ (cellShape ktol n.obj).map (· + 1) then .error .value
   else
-    let cs := cellShape ktol n.obj
-    let cp := r.cp.getD k default
-    let cell := r.cells.getD k default
-    -- the slices `[:-1]`, `[1:]` of the number array must have the extent of the cell array
-    if cp.shape ≠ cs.map (· + 1) then .error .value
-    else do
-      let lower := n.lower.getLastD []
-      let out ← (List.range 3).foldlM (fun (acc : List Face) d => do
-        let acc := acc ++ internalFaces cs cp cell d
-        [(false, 2 * d), (true, 2 * d + 1)].foldlM (fun (acc : List Face) (side : Bool × ℕ) => do
-          let some bd := lower[side.2]? | .ok acc      -- `islice` of an exhausted iterator
-          let bn := r.sm.cat.node bd
-          let some hs := bn.higherAt 3 | .error (.m .key)      -- `nhigher`
-          let nh := hs.length
-          if nh ≠ 1 ∧ nh ≠ 2 then .error .assertion
-          else if bn.owner != some t then .ok acc
-          else
-            let fs := sideFaces cs cp cell d side.1 (r.nameOf bd)
-            if nh = 1 then .ok (acc ++ fs)
-            else do
-              let some nbId := hs.find? (· != t) | .error .stopIteration
-              let nb := r.sm.cat.node nbId
-              let nbIndex := (nb.lower.getD 2 []).idxOf bd
-              let some nbSec := sectionFromIndex 3 2 nbIndex | .error .index
-              let ori ← liftM (Orientation.compute bn.obj (nb.obj.sect nbSec))
-              let cellidxs := (r.cells.getD (r.tops.idxOf nbId) default).sect nbSec
-              let mapped := (ori.mapArray cellidxs).data.toList
-              if mapped.length ≠ fs.length then .error .value
-              else .ok (acc ++ (List.zip fs mapped).map (fun (fm : Face × ℤ) => { fm.1 with neighbor := fm.2 })))
-          acc) []
-      if out.all (fun f => f.owner < f.neighbor || f.neighbor == -1) then .ok out else .error .assertion
+    match (List.range 3).mapM (r.pieceOf ktol k) with
+    | .error e => .error e
+    | .ok pieces => .ok pieces.flatten
+
+/-- `TopologicalNode.faces()` of the top node at position `k`: the list, then
+    `assert ((owner < neighbor) | (neighbor == -1)).all()`. -/
+def Numbered.facesOf (ktol : ℚ) (r : Numbered) (k : ℕ) : Except NErr (List Face) :=
+  match r.facesTagged ktol k with
+  | .error e => .error e
+  | .ok l =>
+    let out := l.map (·.1)
+    if out.all (fun f => f.owner < f.neighbor || f.neighbor == -1) then .ok out else .error .assertion
+
+/-- numbers of the 8 corners of the cell with multi-index `idx` -/
+def cellCorners (cp : NdArr ℤ) (idx : List ℕ) : List ℤ :=
+  (List.range 8).map fun n => cp.get [idx.getD 0 0 + n / 4 % 2, idx.getD 1 0 + n / 2 % 2, idx.getD 2 0 + n % 2]
+
+/-- `c` is the number of a cell of the patch at position `pos`, and that cell has the four
+    vertices `nodes` among its corners -/
+def Numbered.cellHas (r : Numbered) (pos : ℕ) (c : ℤ) (nodes : List ℤ) : Bool :=
+  let cell := r.cells.getD pos default
+  let q := cell.data.toList.idxOf c
+  decide (q < cell.data.size) &&
+    nodes.all fun v => (cellCorners (r.cp.getD pos default) (unravel cell.shape q)).contains v
+
+/-- **decidable guard of the face theorems** (`C18_faces_assembly`), evaluated by the harness on
+    every generated trilinear model: volumes; every patch has cells in each direction; the lists of
+    `faces()` can be formed (`facesTagged`, i.e. everything before the final `assert`); every
+    interface a node lists leads to a LATER top node (ownership is first come, so cell numbers of
+    the owner are smaller); and every listed face is geometrically adjacent to the cells it names:
+    the owner cell — and the neighbour cell, found for an interface through
+    `Orientation.compute(bdnode.obj, nb_obj).map_array` — has the four vertices of the face among
+    its eight corners. -/
+def Numbered.facesGuardB (ktol : ℚ) (r : Numbered) : Bool :=
+  decide (r.sm.pardim = 3) && (List.range r.tops.length).all fun k =>
+    (cellShape ktol (r.sm.cat.node (r.tops.getD k 0)).obj).all (0 < ·) &&
+    match r.facesTagged ktol k with
+    | .error _ => false
+    | .ok l => l.all fun fk =>
+        r.cellHas k fk.1.owner fk.1.nodes &&
+        match fk.2 with
+        | .internal => r.cellHas k fk.1.neighbor fk.1.nodes
+        | .boundary => true
+        | .iface nbPos => decide (k < nbPos) && decide (nbPos < r.tops.length) &&
+            r.cellHas nbPos fk.1.neighbor fk.1.nodes
 
 /-- `SplineModel.faces()`.  The per-node lists are produced inside a generator expression
     (`chain.from_iterable(node.faces() for node in …)`): a `StopIteration` escaping from
